@@ -689,7 +689,12 @@ func c20LongLine(r *Rand) string {
 	case 3:
 		return "// " + body
 	}
-	return "retract (\n\t" + strings.Repeat("v1.0.0 ", n/8) + "\n)\n"
+	// many tokens on one line (capped: the list-based model recomputes the remaining length per token)
+	k := n / 8
+	if k > 1500 {
+		k = 1500
+	}
+	return "retract (\n\t" + strings.Repeat("v1.0.0 ", k) + body[:n/4] + "\n)\n"
 }
 
 // c20GenInput returns an input text and its family tag.
@@ -714,13 +719,17 @@ func c20GenInput(r *Rand) (string, string) {
 	case k < 99:
 		return c20Malformed(r), "malformed"
 	}
+	if thorough && !r.Chance(4) {
+		// 100 kB lines are 0.04% of the thorough stream (each is a 200 kB op line)
+		return c20GenFile(r, "mod"), "gomod"
+	}
 	return c20LongLine(r), "longline"
 }
 
 var c20Boundary = []string{"", "\n", "\r", "\r\n", " ", "//", "//\n", "// c", "/", "/*", "x", "x\n", "(", ")", "(\n", ")\n", "x (", "x (\n", "x ( )", "x ( )\n", "x ( ) y\n", "x ( y\n",
 	"x (\n)", "x (\n)\n", "x (\n) y\n", "x (\n\n)\n", "x (\n// c\n)\n", "x (\ny\n// c\n\n)\n", "x ( // c\n)\n", "x (\n) // c\n", "x ( ) // c\n", "\"", "`", "\"\\", "\"a\nb\"", "`a\nb`",
 	"\xef\xbb\xbfmodule x\n", "x // a\n// b\ny\n", "// a\n\n// b\nx\n", "// a\nx\n// b\n", "x\n\n\n\ny\n", "module x // Deprecated: y\n", "module (\n\t// Deprecated: z\n\tx\n)\n",
-	"require (\n\tmodule v1.0.0\n)\nmodule example.com/m\n", "retract (\n\tretract v1.0.0\n)\n", "go 1.21\ngo 1.22\n", "module x y\nmodule z\nretract v1.0.0\n",
+	"require (\n\tmodule v1.0.0\n)\nmodule example.com/m\n", "module (\n)\nmodule example.com/m\n", "retract (\n\tretract v1.0.0\n)\n", "go 1.21\ngo 1.22\n", "module x y\nmodule z\nretract v1.0.0\n",
 	"retract [\"v1.0.0\", 'x']\n", "retract \"v1 .0\"\n", "require \"(\" v1.0.0\n", "x ( ) (\n)\n", "a\u00a0// c\n", "a \xc2// c\n", "\u2028// c\n", "x y // c1 // c2\n", "x\t//c\r\n",
 	"module \"a//b\"\n", "module `x`\n", "module 'x'\n", "  module   x  \n", "module\tx\r\n", "module x\r", "modulex y\n", "module\u00a0x\n"}
 
@@ -834,7 +843,9 @@ func c20LeafOps(g *Gen) {
 	case 2:
 		g.Emit("modfile.quote "+hx(atom()), true, "leaf")
 	case 3:
-		pad := func() string { return g.Pick([]string{"", " ", "\t", "\u00a0", "\u2028", "\u0085", "\xc2", "\x85", "\xe2\x80", "\r\n", "\v\f", "\u3000", "\xa0", "\xe2"}) }
+		pad := func() string {
+			return g.Pick([]string{"", " ", "\t", "\u00a0", "\u2028", "\u0085", "\xc2", "\x85", "\xe2\x80", "\r\n", "\v\f", "\u3000", "\xa0", "\xe2"})
+		}
 		g.Emit("modfile.trimspace "+hx(pad()+pad()+atom()+pad()+pad()), true, "leaf")
 	case 4:
 		g.Emit("modfile.fields "+hx(atom()+g.Pick([]string{" ", "\u00a0", "\t", "\xc2"})+atom()), true, "leaf")
@@ -1045,6 +1056,20 @@ func c20BlockModuleLineBefore(f *modfile.File) bool {
 	return false
 }
 
+// c20ModuleBlockHeaderBefore: second trigger of the same defect — the header line `module (` of a
+// module block without lines (so the block defines no module) precedes the real module directive.
+func c20ModuleBlockHeaderBefore(f *modfile.File) bool {
+	if f.Module == nil || f.Module.Syntax == nil {
+		return false
+	}
+	for _, st := range f.Syntax.Stmt {
+		if b, ok := st.(*modfile.LineBlock); ok && len(b.Token) == 1 && b.Token[0] == "module" && len(b.Line) == 0 && b.Start.Byte < f.Module.Syntax.Start.Byte {
+			return true
+		}
+	}
+	return false
+}
+
 func c20Guard(g *Gen, what string, ops []string, f func()) {
 	done := make(chan string, 1)
 	go func() {
@@ -1062,7 +1087,7 @@ func c20Guard(g *Gen, what string, ops []string, f func()) {
 		if s != "" {
 			g.Fail(what+" panics", s, ops...)
 		}
-	case <-timeAfter(opTimeout):
+	case <-c20TimeAfter(opTimeout):
 		g.Fail(what+" hangs", "", ops...)
 	}
 }
@@ -1106,7 +1131,7 @@ func c20OracleInput(g *Gen, s, tag string) {
 			}
 			// positions of the trees returned by the directive layer (tokens may have been rewritten:
 			// consistency of line/column/byte only)
-			for _, t := range []*modfile.FileSyntax{syntaxOf(strict), syntaxOf(lax), workSyntaxOf(wf)} {
+			for _, t := range []*modfile.FileSyntax{c20SyntaxOf(strict), c20SyntaxOf(lax), c20WorkSyntaxOf(wf)} {
 				if t == nil {
 					continue
 				}
@@ -1132,6 +1157,8 @@ func c20OracleInput(g *Gen, s, tag string) {
 						sig := "modulepath-disagrees"
 						if c20BlockModuleLineBefore(strict) {
 							sig = "modulepath-block-line"
+						} else if c20ModuleBlockHeaderBefore(strict) {
+							sig = "modulepath-module-block-header"
 						}
 						g.Fail(sig, fmt.Sprintf("ModulePath=%q strict=%q input=%q", got, strict.Module.Mod.Path, s), "modfile.modulepath "+h, "modfile.parse nofix "+h)
 					}
@@ -1142,14 +1169,14 @@ func c20OracleInput(g *Gen, s, tag string) {
 	})
 }
 
-func syntaxOf(f *modfile.File) *modfile.FileSyntax {
+func c20SyntaxOf(f *modfile.File) *modfile.FileSyntax {
 	if f == nil {
 		return nil
 	}
 	return f.Syntax
 }
 
-func workSyntaxOf(f *modfile.WorkFile) *modfile.FileSyntax {
+func c20WorkSyntaxOf(f *modfile.WorkFile) *modfile.FileSyntax {
 	if f == nil {
 		return nil
 	}
